@@ -137,6 +137,7 @@ LedgerEvents(s) ==
   \cup Deposits({"bad:notbech32"}, {1}, {"u2"}, {"d1"}, {1}, {"p0"})
   \cup Deposits({"u1"}, {0, 1}, {"bad:empty", "u2"}, {"d1", "bad:denom"}, {3}, {"p0"})
   \cup Deposits({"u1"}, {1}, {"u2"}, {"d1"}, {4}, {"p0"})                      \* 4 units = 2^64: does not fit 64 bits
+  \cup Deposits({"u1"}, {1}, {"bad:empty"}, {"d1"}, {3}, {"p1"})                \* no recipient, but a payload
   \cup Deposits({"u1"}, {1}, {"u2"}, {"bad:denom"}, {0}, {"p0"})               \* nothing to escrow, so only the message's own validation looks at the denom
   \cup (IF Thorough THEN Deposits({"u1"}, {1, 2}, {"u2"}, {"d1"}, {3, 5}, {"p0"}) ELSE {})
   \cup UNION {Proposes({"p1"}, {b}, {1}, {1}, {Root(0, "T2", "h1")}) : b \in {b \in {1, 2} : s.nextOut[K(b)] <= (IF Thorough THEN 2 ELSE 1)}}
